@@ -19,7 +19,7 @@ from . import full_common as fc
 ID = "C01"
 LEVEL = "exploration"
 BUDGET = {"quick": 35, "thorough": 480}
-FLOOR = {"quick": 100, "thorough": 200}
+FLOOR = {"quick": 30, "thorough": 60}
 RULE = ("grammar-directed programs with probes after every statement (live variables, event paths) in "
         "every block/branch/closure; exact external schema; 4 conforming events per program. Non-trivial: "
         "the run finished Ok/return and the program has a branch, short-circuit, closure, path assignment "
@@ -42,7 +42,15 @@ def setup(ctx):
 
 
 def gen_case(ctx, rng):
-    return fc.gen_full_case(rng, opts(ctx), NEVENTS)
+    o = opts(ctx)
+    # most programs avoid the two constructs with known, recorded type holes (early `return`,
+    # closures) so that the budget is spent on judging programs rather than on re-shrinking the
+    # same findings; a third of the programs keep each of them
+    if rng.random() < 0.65:
+        o.ret = False
+    if rng.random() < 0.65:
+        o.closures = False
+    return fc.gen_full_case(rng, o, NEVENTS)
 
 
 def check_run(resp, run):
@@ -127,6 +135,18 @@ def run_case(ctx, case):
                    sample={"src": src[:600], "outcome": next(iter(o), "panic")})
             continue
         w0 = where_class(bad[0][0])
+        out0 = next(iter(run.get("out", {})), "?")
+        if w0 in ("final_event", "final_metadata") and out0 == "ret":
+            # exact by construction: no shrinking needed
+            ctx.violation("type:state:after_early_return", {"src": src[:1500], "event": repr(event)[:300],
+                                                            "where": bad[0][0], "detail": bad[0][1]},
+                          case={"stmts": stmts, "events": [enc(event)], "probe_info": {}})
+            continue
+        if w0 == "returns":
+            ctx.violation("type:returns_kind", {"src": src[:1500], "event": repr(event)[:300],
+                                                "where": bad[0][0], "detail": bad[0][1]},
+                          case={"stmts": stmts, "events": [enc(event)], "probe_info": {}})
+            continue
         presig = (w0, next(iter(run.get("out", {})), "?"), tuple(k for k in kinds if k in CULPRITS)[:3])
         seen = ctx.__dict__.setdefault("presig_seen", {})
         seen[presig] = seen.get(presig, 0) + 1
